@@ -66,9 +66,50 @@ fn binding_stall_cases(s: &mut Session, thorough: bool, rng: &mut Rng) {
     }
 }
 
+/// the server is away for a while: many applications' first datagrams find no server (every one of those bindings fails
+/// to open); when the server is back, new applications are served as if nothing had happened
+fn failed_bindings_then_recovery(s: &mut Session, thorough: bool, rng: &mut Rng) {
+    for base in protocol_ciphers(rng) {
+        if !matches!((base.protocol, base.cipher), ("vmess", "aes-128-gcm") | ("shadowsocks", "aes-128-gcm")) && !thorough {
+            continue;
+        }
+        let mut base = base;
+        base.udp = true;
+        if base.protocol == "trojan" {
+            continue;
+        }
+        let cfg = base.with("tcp");
+        s.begin_case(&format!("failed-bindings-then-recovery:{}", cfg.label()));
+        let Some(w) = cfg.start(s, false, 4) else { continue };
+        s.run(&format!("e2e.server {} stop", w));
+        s.run(&format!("e2e.udpfire {} n={}", w, 80));
+        s.count("fault:bindings-fail-to-open");
+        s.run(&format!("e2e.server {} start", w));
+        let mut last = String::new();
+        let mut served = false;
+        for _ in 0..2 {
+            last = s.run(&format!("e2e.udp {} sizes=1,700 seed={}", w, rng.below(1 << 40)));
+            if last == "up=ok down=ok" {
+                served = true;
+                break;
+            }
+        }
+        if !served {
+            s.oracle_fail(&format!("udp-canary:{}:failed-bindings", cfg.label()), &format!("after 80 bindings that could not be opened (server away) and the server's return, a fresh udp flow was not served: `{}`", last));
+        }
+        let r = s.run(&format!("e2e.alive {}", w));
+        if r != "alive" {
+            s.oracle_fail(&format!("service-ended:{}:failed-bindings", cfg.label()), &format!("a service task had ended: `{}`", r));
+        }
+        s.run(&format!("e2e.stop {}", w));
+        s.mark_nontrivial();
+    }
+}
+
 pub fn generate(s: &mut Session, tier: &str, rng: &mut Rng) {
     let thorough = tier == "thorough";
     binding_stall_cases(s, thorough, rng);
+    failed_bindings_then_recovery(s, thorough, rng);
     let mut transports = vec!["tcp", "ws"];
     if tls_available() {
         transports.extend(["tls", "wss", "quic"]);
